@@ -9,13 +9,15 @@ What is mirrored (the code that exists, with the repairs fixes/C18-*.patch appli
   since repair C18-10 — before it grouped the raw onsets and disagreed with the encoder for onsets
   less than 1e-4 beat apart).
 * `get_unique_seq`: group means + `last_time` (`max(offsets)`, or `max(onsets) + 1` when equal).
-* `monotonize_times`: keep the first point and every point strictly above the running maximum,
-  interpolate linearly through the kept points (scipy `interp1d` linear with extrapolation:
-  segment found by `searchsorted` left clipped to `1..n-1`; partitura's wrapper returns the only
-  value when there is one knot).
+* `monotonize_times`: keep the first point and every point strictly above the running maximum
+  (`monoKnots`), interpolate linearly through the kept points (scipy `interp1d` linear with
+  extrapolation: knots sorted stably by `x` (`sortKnots`), segment found by `searchsorted` left clipped
+  to `1..n-1`; partitura's wrapper returns the only value when there is one knot).
 * `tempo_by_average`: `diff(mono) / diff(unique score onsets ++ [last])` (the zero-order
-  interpolator is evaluated at its own knots); any other tempo curve (`tempo_by_derivative`, a user
-  callable) enters as the parameter `bp`, one value per onset group.
+  interpolator is evaluated at its own knots); `tempo_by_derivative`: `first_order_derivative`
+  (weights `[-1, 0, 1] / 2`, step 1/2 beat) of the linear interpolant through (unique score onset,
+  monotonized time), sampled at the unique score onsets; a user callable enters as the parameter
+  `bp` (`Method.given`), one value per onset group.
 * `encode_tempo`: `eq_i = Σ_{j<i} bp_j·Δs_j + mean(performed onsets of group 0)`,
   `timing = eq_i − performed onset`, articulation RATIO `pd / (bp·sd)` (grace notes, `sd ≤ 0`:
   `bp / (bp·1)`); the stored parameter is `log2` of that ratio (transcendental: Props/C18Real).
@@ -32,11 +34,13 @@ What is mirrored (the code that exists, with the repairs fixes/C18-*.patch appli
   = `duration_beat` (repair C18-8), performed duration `max(pd, 0.075)` (the "hack", open finding F-C18-4);
   `get_matched_notes`: matches with both ids present, in alignment order.
 * `decode_performance(score, parameters, snote_ids)`: score rows in the order of `snote_ids`
-  (repair C18-5), stable sort by (onset_div, pitch) applied to rows and parameters, ids zipped in
-  the given order.
+  (repair C18-5; an id is looked up through a dict, i.e. by its LAST row), stable sort by
+  (onset_div, pitch) applied to rows and parameters, ids zipped in the given order.
+* `encode_performance`: `to_matched_score`, `encode_tempo`, the velocity column, `snote_ids`.
 * `get_time_maps_from_alignment`: knots (unique score onset, mean performed onset of its notes,
   ornaments (`sd ≤ 0`) removed on request, onsets left without notes dropped — repair C18-6),
-  linear with extrapolation in both directions (scipy sorts the knots by `x`, stably).
+  linear with extrapolation in both directions (scipy sorts the knots by `x`, stably);
+  `alignmentKnots`: the same from the note tables and the alignment (`get_matched_notes`).
 
 `none` stands for an exception or NaN.  Lean core only.
 -/
@@ -157,10 +161,22 @@ def monoKnots : List (Rat × Rat) → List (Rat × Rat)
   | [] => []
   | (x, s) :: rest => (x, s) :: maskKnots s rest
 
+/-- scipy `interp1d.__init__` (`assume_sorted=False`): knots sorted by `x`, `argsort(kind="mergesort")` -/
+def sortKnots (ks : List (Rat × Rat)) : List (Rat × Rat) := isort (fun a b => decide (a.1 ≤ b.1)) ks
+
+/-- the interpolant `interp1d(_x[mask], _s[mask], fill_value="extrapolate")` of `monotonize_times` -/
+def monoFun (xs ss : List Rat) : Rat → Option Rat := interpExt (sortKnots (monoKnots (xs.zip ss)))
+
 /-- `monotonize_times(s, x)[0]` -/
-def monotonize (xs ss : List Rat) : Option (List Rat) :=
-  let ks := monoKnots (xs.zip ss)
-  allSome (xs.map (interpExt ks))
+def monotonize (xs ss : List Rat) : Option (List Rat) := allSome (xs.map (monoFun xs ss))
+
+/-- `first_order_derivative(func, x0, dx=0.5)`: central difference with the weights `[-1, 0, 1] / 2`
+    (`val = 0; val += w[k] * func(x0 + (k - 1) * dx); return val / dx`; a NaN of any of the three
+    evaluations, the middle one included, makes the result NaN) -/
+def firstOrderDerivative (f : Rat → Option Rat) (x : Rat) : Option Rat :=
+  match f (x + (0 - 1) * (1 / 2)), f (x + (1 - 1) * (1 / 2)), f (x + (2 - 1) * (1 / 2)) with
+  | some a, some b, some c => some ((0 + (-1 / 2) * a + 0 * b + (1 / 2) * c) / (1 / 2))
+  | _, _, _ => none
 
 -- ------------------------------------------------------------------ normalisations
 
@@ -214,17 +230,34 @@ def encGroups (ns : List MNote) : List (Grp MNote) := groupsBy (fun n => encKey 
 def groupMeans {α : Type} (f : α → Rat) (gs : List (Grp α)) : List Rat :=
   gs.map fun g => mean (g.map fun p => f p.2)
 
-/-- `tempo_by_average` on the groups: one beat period per group -/
-def tempoAverage (ns : List MNote) (gs : List (Grp MNote)) : Option (List Rat) :=
+/-- what both tempo functions compute first: unique score onsets and mean performed onsets of the
+    groups, each with its `last_time` appended (`get_unique_seq`), and the monotonized performed
+    times (`monotonize_times`) -/
+def tempoSeqs (ns : List MNote) (gs : List (Grp MNote)) : Option (List Rat × List Rat × List Rat) :=
   match lastTime (ns.map (·.so)) (ns.map fun n => n.so + n.sd),
         lastTime (ns.map (·.po)) (ns.map fun n => n.po + n.pd) with
   | some ls, some lp =>
     let xs := groupMeans (·.so) gs ++ [ls]
     let ss := groupMeans (·.po) gs ++ [lp]
     match monotonize xs ss with
-    | some mono => some (List.zipWith (· / ·) (diffs mono) (diffs xs))
+    | some mono => some (xs, ss, mono)
     | none => none
   | _, _ => none
+
+/-- `tempo_by_average` on the groups: one beat period per group -/
+def tempoAverage (ns : List MNote) (gs : List (Grp MNote)) : Option (List Rat) :=
+  match tempoSeqs ns gs with
+  | some (xs, _, mono) => some (List.zipWith (· / ·) (diffs mono) (diffs xs))
+  | none => none
+
+/-- `tempo_by_derivative` on the groups: central difference (step 1/2 beat) of the linear
+    interpolant through (unique score onset, monotonized performed time), sampled at the unique
+    score onsets -/
+def tempoDerivative (ns : List MNote) (gs : List (Grp MNote)) : Option (List Rat) :=
+  match tempoSeqs ns gs with
+  | some (xs, _, mono) =>
+    allSome ((groupMeans (·.so) gs).map (firstOrderDerivative (interpExt (sortKnots (xs.zip mono)))))
+  | none => none
 
 /-- `encode_articulation` before the logarithm -/
 def artRatio (bp sd pd : Rat) : Rat :=
@@ -251,6 +284,7 @@ def encodeG (bp : List Rat) (cols : List (List Rat)) (gs : List (Grp MNote)) : L
 
 inductive Method where
   | average
+  | derivative
   | given (bp : List Rat)
 
 /-- `encode_tempo` (time parameters in note order) for the normalisation `n`; `sd` is
@@ -260,6 +294,7 @@ def encode (m : Method) (n : Norm) (sd : Rat) (ns : List MNote) : Option (List T
   let bp? : Option (List Rat) :=
     match m with
     | .average => tempoAverage ns gs
+    | .derivative => tempoDerivative ns gs
     | .given bp => if bp.length = gs.length then some bp else none
   match bp? with
   | none => none
@@ -445,10 +480,29 @@ structure ParamRow where
 
 def getAll {α : Type} (l : List α) (idx : List Nat) : Option (List α) := allSome (idx.map fun i => l[i]?)
 
-/-- `decode_performance(score, parameters, snote_ids)`: (id, onset, duration, velocity) per note -/
+/-- `dict((nid, i) for i, nid in enumerate(ids))[x]`: index of the LAST occurrence -/
+def lastIndexOf (x : String) : List String → Option Nat
+  | [] => none
+  | a :: rest =>
+    match lastIndexOf x rest with
+    | some i => some (i + 1)
+    | none => if a = x then some 0 else none
+
+/-- the score rows `decode_performance` selects: for every id of `snote_ids` the row of the score note
+    array carrying it (the last one, should an id be repeated), in the order of `snote_ids`
+    (`snotes[[idx_by_id[nid] for nid in snote_ids]]`; an unknown id is a `KeyError`) -/
+def selectRows (ss : List SRow) (ids : List String) : Option (List SRow) :=
+  allSome (ids.map fun id => (lastIndexOf id (ss.map (·.id))).bind fun i => ss[i]?)
+
+/-- what `decode_time` reads for one note: score row and parameter row -/
+def mkDRow (s : SRow) (p : ParamRow) : DRow := ⟨s.so, s.sd, p.timing, p.ratio, p.cols⟩
+
+/-- `decode_performance(score, parameters, snote_ids)`: (id, onset, duration, velocity) per note.
+    Score rows and parameter rows are re-sorted stably by (onset_div, pitch) (`np.lexsort`), decoded,
+    and zipped with `snote_ids` in the GIVEN order -/
 def decodePerformance (n : Norm) (ss : List SRow) (ids : List String) (ps : List ParamRow) :
     Option (List (String × Rat × Rat × Int)) :=
-  match allSome (ids.map fun id => (sIndex ss id).bind fun i => ss[i]?) with
+  match selectRows ss ids with
   | none => none
   | some info =>
     if info.length ≠ ps.length then none else
@@ -457,11 +511,30 @@ def decodePerformance (n : Norm) (ss : List SRow) (ids : List String) (ps : List
     match getAll ps idx with
     | none => none
     | some ps' =>
-      let rows := List.zipWith (fun (s : Nat × SRow) (p : ParamRow) => (⟨s.2.so, s.2.sd, p.timing, p.ratio, p.cols⟩ : DRow)) order ps'
+      let rows := List.zipWith (fun (s : Nat × SRow) (p : ParamRow) => mkDRow s.2 p) order ps'
       match decodeTime n rows with
       | none => none
       | some od =>
         some (zipWith3 (fun id (x : Rat × Rat) (p : ParamRow) => (id, x.1, x.2, decodeVel p.vel)) ids od ps')
+
+-- ------------------------------------------------------------------ encode_performance
+
+def toMNote (r : MRow) : MNote := ⟨r.so, r.sd, r.po, r.pd⟩
+
+/-- `snote_ids`: the id of the score row of every row of the matched score -/
+def snoteIds (ss : List SRow) (rows : List MRow) : Option (List String) :=
+  allSome (rows.map fun r => (ss[r.sidx]?).map (·.id))
+
+/-- `encode_performance(score, performance, alignment)`: matched score, time parameters, velocity
+    column, `snote_ids`; `sd` is `np.std` of the beat periods (only read by `standardized`) -/
+def encodePerformance (m : Method) (n : Norm) (sd : Rat) (ss : List SRow) (ps : List PRow) (al : List ARow) :
+    Option (List (TParam × Rat) × List String) :=
+  match toMatchedScore ss ps al with
+  | none => none
+  | some rows =>
+    match encode m n sd (rows.map toMNote), snoteIds ss rows with
+    | some tps, some ids => some (List.zipWith (fun t (r : MRow) => (t, encodeVel r.vel)) tps rows, ids)
+    | _, _ => none
 
 -- ------------------------------------------------------------------ time maps
 
@@ -485,6 +558,18 @@ def timeKnots (removeOrn : Bool) (rows : List TRow) : List (Rat × Rat) :=
     match sel with
     | [] => none
     | _ :: _ => some (u, mean (sel.map (·.2.2)))
+
+/-- the matched onsets `get_time_maps_from_alignment` reads: for every pair of `get_matched_notes`
+    the score onset and duration and the performed onset -/
+def timeMapRows (ss : List SRow) (ps : List PRow) (al : List ARow) : Option (List TRow) :=
+  allSome ((matchedNotes ss ps al).map fun ij =>
+    match ss[ij.1]?, ps[ij.2]? with
+    | some s, some p => some (s.so, s.sd, p.po)
+    | _, _ => none)
+
+/-- knots of `get_time_maps_from_alignment(ppart, spart, alignment, remove_ornaments)` -/
+def alignmentKnots (ro : Bool) (ss : List SRow) (ps : List PRow) (al : List ARow) : Option (List (Rat × Rat)) :=
+  (timeMapRows ss ps al).map (timeKnots ro)
 
 def stimeToPtime (ks : List (Rat × Rat)) (s : Rat) : Option Rat := interpExt ks s
 
